@@ -10,6 +10,7 @@ T = "pycoin.vm.ScriptStreamer:ScriptStreamer."
 
 @contract(T + "compile_push_data")
 class compile_push_data:
+    slow_canaries = True
     props = ["C12"]
     sig = dict(self=Const(BitcoinScriptStreamer), data=Bytes(sample_max=300, interesting=[b"", b"\x01", b"\x10", b"\x11", b"\x81", b"\x00", bytes(75), bytes(76), bytes(255), bytes(256)]))
     returns = Bytes()
@@ -26,6 +27,7 @@ class compile_push_data:
 
 @contract(T + "get_opcode")
 class get_opcode:
+    slow_canaries = True
     props = ["C12", "C03"]
     sig = dict(self=Const(BitcoinScriptStreamer), script=Bytes(minlen=1, sample_max=90), pc=Int(0), verify_minimal_data=Bool())
     returns = Tup(Int(), Opt(Bytes()), Int(), Bool())
